@@ -929,7 +929,6 @@ class scr_hook_event_loop:
 
 
 USCREEN = Obj(_prd.Screen, dict(_current_event_loop_handles=ListOf(Int), _input_timeout=Opt(Opaque("AlarmHandle"))))
-PROTOCOLS["AlarmHandle"].truth = lambda st, obj: True  # (a handle object: truthy)
 
 
 def _unhook_inv(v):
